@@ -182,3 +182,28 @@ package plumbing
 //gvc:  results r err
 //gvc:  ensures fresh: err == nil ==> r != nil && r.#pos == 0 && r.#data == o.#content
 //gvc:end
+
+// MemoryObject (property C01: the id is computed over the final type and the
+// whole content). The id is fixed by the first Hash() call, so nothing else may
+// fix it earlier: closing the writer, setting the type and setting the size
+// leave the cached id alone (frame conditions; a strict unit may write only
+// what its modifies clause lists).
+//gvc:func (*MemoryObject).Close
+//gvc:  props C01
+//gvc:  theory int
+//gvc:  ensures ok: result == nil
+//gvc:end
+
+//gvc:func (*MemoryObject).SetType
+//gvc:  props C01
+//gvc:  theory int
+//gvc:  modifies o.t
+//gvc:  ensures set: o.t == t
+//gvc:end
+
+//gvc:func (*MemoryObject).SetSize
+//gvc:  props C01
+//gvc:  theory int
+//gvc:  modifies o.sz
+//gvc:  ensures set: o.sz == s
+//gvc:end
